@@ -230,6 +230,11 @@ fn exec_block(cpu: &mut Cpu, base: u64, b: &[u8; sim::RLEN], d: &[bool; sim::RLE
     true
 }
 
+/// entry point for the native oracle cross-check (tools/oracle_check)
+pub fn exec_block_pub(cpu: &mut Cpu, base: u64, b: &[u8; sim::RLEN]) -> bool {
+    exec_block(cpu, base, b, &[false; sim::RLEN])
+}
+
 /// Run from cpu.pc until control leaves the modelled regions (or `ret`), at most `max` blocks.
 pub fn run(cpu: &mut Cpu, max: usize) {
     let mut n = 0;
